@@ -9,6 +9,7 @@ CLAIMS = {
  # id: (technique, level text, level_note, design_ref)
  "C01": ("writer/reader term agreement + loop typestate over MIR", None, None, "4/C01"),
  "C02": ("term agreement, dataflow wiring, writer census over MIR", None, None, "4/C02"),
+ "C04": ("term templates of the merge criterion + reuse of the digest's conservation/clear/insert rules over MIR", None, None, "5 (revised in 9: claimed for structure only)"),
  "C03": ("const-table shape agreement + may-panic census over MIR", None, None, "4/C03"),
  "C05": ("term templates (linear normal forms) over MIR", None, None, "4/C05"),
  "C06": ("writer census (monoid classification) + guard dominance over MIR", None, None, "4/C06"),
@@ -28,7 +29,6 @@ CLAIMS = {
  "C20": ("who-may-construct + guard dominance; may-panic census; field-table agreement over MIR", None, None, "4/C20"),
 }
 NOT_APPLICABLE = {
- "C04": "rank-error and centroid-count bounds are numeric consequences of analytic properties of the scale functions over all input orders and merge schedules; no path, pairing or term-shape rule implies them and checking the constants against the paper would be a frozen-fragment match (DESIGN section 5)",
 }
 
 def main():
